@@ -1081,6 +1081,19 @@ impl TransportManager {
         Ok(None)
     }
 
+    /// Report a failed dial of `peer` to all installed protocols.
+    async fn report_dial_failure_to_protocols(&mut self, peer: PeerId, addresses: Vec<Multiaddr>) {
+        for context in self.protocols.values() {
+            let _ = context
+                .tx
+                .send(InnerTransportEvent::DialFailure {
+                    peer,
+                    addresses: addresses.clone(),
+                })
+                .await;
+        }
+    }
+
     /// Poll next event from [`crate::transport::manager::TransportManager`].
     pub async fn next(&mut self) -> Option<TransportEvent> {
         loop {
@@ -1147,7 +1160,15 @@ impl TransportManager {
                     match command {
                         InnerTransportManagerCommand::DialPeer { peer } => {
                             if let Err(error) = self.dial(peer).await {
-                                tracing::debug!(target: LOG_TARGET, ?peer, ?error, "failed to dial peer")
+                                tracing::debug!(target: LOG_TARGET, ?peer, ?error, "failed to dial peer");
+
+                                // The protocol that requested the dial was told the dial had been
+                                // accepted and is waiting for its outcome. If the peer is already
+                                // connected the protocol learns of the connection, otherwise it
+                                // must be told that the dial failed.
+                                if !std::matches!(error, Error::AlreadyConnected) {
+                                    self.report_dial_failure_to_protocols(peer, Vec::new()).await;
+                                }
                             }
                         }
                         InnerTransportManagerCommand::DialAddress { address } => {
